@@ -200,6 +200,50 @@ TScan ==
      /\ Report(l, PC("C04", e.api), ScanBad(inst, e))
      /\ LayerM => Report(l, "M:scan", ScanDrift(inst, e))
 
+\* ---- large tries: Layer P with neighbours supplied by the harness ---------------
+\* per item: q, the answers, lo = greatest retained key <= q (with value lov),
+\* hi = least retained key > q (hiv), predv = value of the greatest retained key < q,
+\* indexed/kv = q is an input key and its own value (retained or not)
+BigBad(e) ==
+  LET o == NormOpt(e.opt)
+      n == Len(e.items)
+      I(j) == e.items[j]
+      Exact(j) == I(j).haslo = 1 /\ I(j).lo = I(j).q
+      wb == {j \in 1..n : ~ /\ (I(j).haslo = 1 => Le(I(j).lo, I(j).q))
+                             /\ (I(j).hashi = 1 => Lt(I(j).q, I(j).hi))}
+      want(j) == <<I(j).predv, IF Exact(j) THEN I(j).lov ELSE NilV, I(j).hiv>>
+  IN [witness |-> wb,
+      panic   |-> {j \in 1..n : I(j).pan # ""},
+      c01     |-> {j \in 1..n : Exact(j) /\ (I(j).get # <<1, I(j).lov>> \/ I(j).id < 0)},
+      c02     |-> {j \in 1..n : I(j).indexed = 1 /\ I(j).rget # <<1, I(j).kv>>},
+      c09     |-> {j \in 1..n : Exact(j) /\ I(j).srch # want(j)},
+      c03     |-> IF ~IsComplete(o) THEN {} ELSE
+                  {j \in 1..n : \/ I(j).get # (IF Exact(j) THEN <<1, I(j).lov>> ELSE <<0, NilV>>)
+                                \/ (I(j).id >= 0) # Exact(j)
+                                \/ I(j).rget # (IF I(j).haslo = 1 THEN <<1, I(j).lov>> ELSE <<0, NilV>>)
+                                \/ I(j).srch # want(j)},
+      c10     |-> {j \in 1..n : \/ (I(j).get[1] = 1) # (I(j).id >= 0)
+                                \/ (e.hasvals /\ (I(j).get[1] = 1) # (I(j).srch[2] # NilV))
+                                \/ (I(j).get[1] = 1 /\ I(j).rget # I(j).get)},
+      c14     |-> {j \in 1..n : I(j).geti[1] # -1 /\ I(j).geti # I(j).get},
+      c18     |-> IF e.statpan # "" \/ e.keycnt # e.nret THEN {1} ELSE {}]
+
+TObsBig ==
+  /\ Ev("obsbig") /\ inst' = NoInst
+  /\ LET b == BigBad(Trace[l]) IN
+     /\ Report(l, "W:neighbours", b.witness)
+     /\ Report(l, "P:C10:panic", b.panic)
+     /\ Report(l, "P:C01:get", b.c01)
+     /\ Report(l, "P:C02:rget", b.c02)
+     /\ Report(l, "P:C09:search", b.c09)
+     /\ Report(l, "P:C03:get", b.c03)
+     /\ Report(l, "P:C10:agree", b.c10)
+     /\ Report(l, "P:C14:geti", b.c14)
+     /\ Report(l, "P:C18:stat", b.c18)
+TBigFail ==
+  /\ Ev("bigfail") /\ inst' = NoInst
+  /\ Report(l, "P:C08:outcome", {1})
+
 TModes ==
   /\ Ev("modes")
   /\ inst' = NoInst
@@ -212,7 +256,7 @@ TModes ==
      /\ Report(l, "P:C13:onkeys", b.onkeys)
      /\ LayerM => Report(l, "M:modes", ModesDrift(e))
 
-TNext == UNCHANGED iters /\ (TNew \/ TTable \/ TTableErr \/ TStat \/ TObsK \/ TObsQ \/ TLoad \/ TModes \/ TRender \/ TMcheck \/ TIndex \/ TLegacy \/ TCalibration \/ TScan)
+TNext == UNCHANGED iters /\ (TNew \/ TTable \/ TTableErr \/ TStat \/ TObsK \/ TObsQ \/ TLoad \/ TModes \/ TRender \/ TMcheck \/ TIndex \/ TLegacy \/ TCalibration \/ TScan \/ TObsBig \/ TBigFail)
 
 \* every line consumed: l - 1 = Len(Trace) in the last state
 Accepted == TLCGet("stats").diameter - 1 = Len(Trace)
